@@ -97,12 +97,16 @@ def run(ctx, stop_first=False):
     jobs = []
     for cfg in configs(ctx.quick):
         for t in tcounts:
-            for loc in (("file", os.path.join(str(ctx.work), f"{cfg['name']}_{t}.h5")), ("temp", None)):
+            locs = [("file", os.path.join(str(ctx.work), f"{cfg['name']}_{t}.h5")), ("temp", None)]
+            if cfg["name"] == "plain_biased" and t == tcounts[0]:
+                # "independent of the output location": also a path already taken by the output of an earlier, other run
+                locs.append(("occupied", os.path.join(str(ctx.work), f"{cfg['name']}_occupied.h5")))
+            for loc in locs:
                 if loc[0] == "temp" and t not in (1, tcounts[-1]):
                     continue
                 jobs.append((cfg, t, loc))
     with ThreadPoolExecutor(max_workers=6 if ctx.quick else 4) as ex:
-        results = list(ex.map(lambda j: launch(j[0], j[1], j[2][1]), jobs))
+        results = list(ex.map(lambda j: launch(dict(j[0], occupy=(j[2][0] == "occupied")), j[1], j[2][1]), jobs))
     by_cfg = {}
     for (cfg, t, loc), r in zip(jobs, results):
         by_cfg.setdefault(cfg["name"], []).append((t, loc[0], r))
